@@ -5,6 +5,7 @@ pid = sys.argv[1]
 n = sys.argv[2] if len(sys.argv) > 2 else "1"
 p = {json.loads(l)["id"]: json.loads(l) for l in open("/verif/properties.jsonl")}[pid]
 wt = "/tmp/seed-%s-%s" % (pid, n)
+avoid = sys.argv[3] if len(sys.argv) > 3 else ""
 print(f"""You are testing a verification effort for the Rust crate Chia-Network/clvm_rs (checked out at /repo, a git repository; offline sandbox, Rust toolchain installed, no network). You work ONLY in your own scratch git worktree; never edit /repo itself and never read or write anything under /verif.
 
 Set up your worktree first:
@@ -25,7 +26,7 @@ YOUR JOB: produce ONE realistic change to clvm_rs (a plausible bug a maintainer 
   2. still COMPILES, and
   3. still passes the ENTIRE existing test suite: run `CARGO_NET_OFFLINE=true cargo test -p clvmr --offline` (and, if you touched another workspace member such as wheel/ or tools/, `cargo test --workspace --offline`) with your change applied and confirm 0 failures — if an existing test fails, your change is too obvious: find a subtler one;
   4. needs something SPECIFIC to manifest — an unusual input (a boundary size, a particular byte pattern, a non-canonical encoding), a multi-step sequence of operations, a particular flag combination or budget, two cooperating sites — NOT something ordinary use would expose at once. Prefer a change whose failing inputs are rare among random inputs.
-Keep the change small (a few lines) and do not touch tests, docs, benches or fuzz targets.
+{("An earlier tester already produced this change — pick a DIFFERENT place in the code and a different kind of mistake: " + avoid + chr(10)) if avoid else ""}Keep the change small (a few lines) and do not touch tests, docs, benches or fuzz targets.
 
 Also write a DEMONSTRATION: a small Rust test or program (e.g. a new file `{wt}/tests/seed_demo.rs` as an integration test using the public API of the `clvmr` crate, or a `#[test]` you add in a NEW test file — do not edit existing tests) that FAILS with your change and PASSES without it. Verify both directions yourself: run the demo with the change applied (must fail), then `git stash` (or `git diff > /tmp/x.diff && git checkout -- src`) run it on the unchanged code (must pass), then restore your change.
 
